@@ -10,7 +10,13 @@ Import ListNotations.
 Open Scope N_scope.
 
 Inductive c07case :=
-| RaceCase (progs : list (list N)) (raced : bool) (same_as_sequential : bool).
+| RaceCase (progs : list (list N)) (raced : bool) (same_as_sequential : bool)
+| SummaryCase (table : list (N * N)).
+    (* the harness' copy of the summary it compared the go/types scan of the source with:
+       (location, 0 = no guard: written by construction only | m + 1 = guarded by mutex m) *)
+
+Definition guard_code (l : nat) : N :=
+  match lib_guard l with Some m => N.of_nat m + 1 | None => 0 end.
 
 Definition known (k : N) : bool := (N.to_nat k <? length lib_ops)%nat.
 
@@ -19,9 +25,11 @@ Definition check (c : c07case) : N :=
   | RaceCase progs raced same =>
     let ids := map (map N.to_nat) progs in
     if negb (forallb (forallb known) progs) then 1
-    else if well_guarded lib_guard (map prog_of_ids ids)
+    else if well_guarded lib_guard (map prog_of_ids ids) && well_ordered lib_rank (map prog_of_ids ids)
          then (if raced || negb same then 2 else 0)
          else 1
+  | SummaryCase table =>
+    if forallb (fun lg => guard_code (N.to_nat (fst lg)) =? snd lg) table then 0 else 1
   end.
 
 Fixpoint bad (cs : list (N * c07case)) : list (N * N) :=
